@@ -6,6 +6,10 @@ def _coq_list(xs):
     return "[" + "; ".join(str(x) for x in xs) + "]%N"
 
 
+def p_len(c):
+    return c["param"]["len"]
+
+
 def _tie(r):
     rc, out, err = run_bin("c09", ["tie"], seed=r.seed, timeout=600)
     cases = json_lines(out)
@@ -29,6 +33,10 @@ def _tie(r):
             terms.append("b2n (enc_ok 0 (box_chain %d))" % p["k"])
         elif g == "macro":
             terms.append("b2n (macro_verdict %d)" % p["k"])
+        elif g == "range":
+            terms.append("vcode (range_len %s %d)" % (_coq_list(p["dims"]), p["limit"]))
+        elif g == "rerank":
+            terms.append("ocode (rerank_prepends %d %d)" % (p["rank"], p["len"]))
         elif g == "regression":
             terms.append("vcode (validate_size %d %s %d)" % (p["es"], _coq_list(p["dims"]), p["limit"]))
             pre_terms.append("vcode (validate_size_pre %d %s %d)" % (p["es"], _coq_list(p["dims"]), p["limit"]))
@@ -53,7 +61,16 @@ def _tie(r):
         by_guard[g] = by_guard.get(g, 0) + 1
         if kind == "ok":
             accepted += 1
-            if g in ("size", "regression"):
+            if g == "rerank":
+                # the result has len + prepended axes; the model gives prepended + 1
+                try:
+                    k = int(msg.strip()) - p_len(c)
+                    impl = (k + 1) if k > 0 else -4
+                    if c["param"]["rank"] < c["param"]["len"]:
+                        impl = 1          # axes merged, nothing prepended
+                except ValueError:
+                    impl = -1
+            elif g in ("size", "regression", "range"):
                 try:
                     impl = int(msg.strip()) + 1
                 except ValueError:
@@ -63,7 +80,7 @@ def _tie(r):
         elif kind == "err":
             refused += 1
             impl = 0
-            expect = {"size": "too large", "regression": "too large", "recursion": "Recursion limit", "nodedepth": "too complex",
+            expect = {"size": "too large", "regression": "too large", "range": "too large", "rerank": "too many dimensions", "recursion": "Recursion limit", "nodedepth": "too complex",
                       "binary": "too deep", "macro": "recur too deep"}[g]
             if expect not in msg and not (g == "nodedepth" and "signature" in msg):
                 impl = -2          # an error, but not the guard's
